@@ -347,16 +347,6 @@ func (w *World) execConcurrent() {
 		return
 	}
 	shared := w.newConcShared("0")
-	// (1) every call made alone beforehand on the same shared instances (registry calls are checked by linearizability)
-	expected := make([][]string, len(tasks))
-	for ti, calls := range tasks {
-		expected[ti] = make([]string, len(calls))
-		for ci, call := range calls {
-			if !isRegistryCall(call.Comp) {
-				expected[ti][ci] = shared.run(call)
-			}
-		}
-	}
 	s := &coSched{planned: append([]int{}, w.Plan.Schedule...), rngState: core.NewRNG(w.Plan.Seed).Stream("sched").Uint64(),
 		switchPc: uint64(w.Plan.Swarm.NetMaxDelay), maxSteps: 60000, sites: map[string]int{}}
 	if s.switchPc == 0 {
@@ -405,6 +395,18 @@ func (w *World) execConcurrent() {
 	if s.deadlock != "" {
 		w.violate("C20/deadlock", "", "%s", s.deadlock)
 		return
+	}
+	// (1) every call made alone (sequentially, on the same shared instances) gives the same result. The sequential
+	// pass runs AFTER the concurrent one so that first-use work (lazy initialisation, caches) happens under concurrency,
+	// where the race detector can see it. Registry calls are checked by linearizability instead.
+	expected := make([][]string, len(tasks))
+	for ti, calls := range tasks {
+		expected[ti] = make([]string, len(calls))
+		for ci, call := range calls {
+			if !isRegistryCall(call.Comp) {
+				expected[ti][ci] = shared.run(call)
+			}
+		}
 	}
 	for ti := range tasks {
 		for ci, call := range tasks[ti] {
